@@ -149,6 +149,7 @@ structure Resp where
   tee : Bool := false              -- body wrapped by caching.tee_output
   src : Src := .none
   gz : Bool := false               -- ghost: body went through compress
+  fired : Bool := false            -- the probe hook already acted in this request
 
 inductive Exn where
   | httpError (code : Nat)
@@ -423,9 +424,28 @@ def gzipStep (pg : Pages) (rq : Req) (cached : Bool) (r : Resp) : Out :=
 /-- `tee_output` -/
 def teeStep (r : Resp) : Out := ({ r with body := ⟨.iter, r.body.chunks⟩, tee := true }, none)
 
+/-- what a user-supplied before_finalize hook (the harness's probe tool) does when it runs -/
+inductive ProbeAct where
+  | raise (e : Exn)                 -- raise HTTPError / HTTPRedirect / another exception
+  | rewrite (b : Bytes)             -- a third-party tool that follows the rule: new body, delete C-L
+  | setStatus (code : Nat)          -- response.status = code
+  deriving DecidableEq, Repr
+
 inductive Step where
   | expires | flatten | etags | gzip | tee
+  | probe (act : ProbeAct) (once : Bool)
   deriving DecidableEq, Repr
+
+/-- the probe hook; `once` = it acts only the first time it runs in a request (hooks run a second
+    time after an HTTPError / HTTPRedirect) -/
+def probeStep (act : ProbeAct) (once : Bool) (r : Resp) : Out :=
+  if once && r.fired then (r, none) else
+  let r := { r with fired := true }
+  match act with
+  | .raise e => (r, some e)
+  | .rewrite b => ({ r with body := bytesBody b, hdrs := r.hdrs.del .contentLength, src := .handler, gz := false,
+                            tee := false }, none)
+  | .setStatus c => ({ r with status := some c }, none)
 
 def applyStep (pg : Pages) (rq : Req) (cached : Bool) : Step → Resp → Out
   | .expires, r => expiresStep r
@@ -433,6 +453,7 @@ def applyStep (pg : Pages) (rq : Req) (cached : Bool) : Step → Resp → Out
   | .etags, r => etagsStep rq r
   | .gzip, r => gzipStep pg rq cached r
   | .tee, r => teeStep r
+  | .probe act once, r => probeStep act once r
 
 /-- `HookMap.run` for non-failsafe hooks: stop at the first exception -/
 def runSteps (pg : Pages) (rq : Req) (cached : Bool) : List Step → Resp → Out
@@ -477,6 +498,7 @@ structure Tools where
   expires : Bool := false
   flatten : Bool := false
   stream : Bool := false
+  probe : Option (Nat × ProbeAct × Bool) := none     -- (priority, action, once)
 
 structure Plan where
   h : Handler
@@ -617,10 +639,24 @@ def handlerStage (pg : Pages) (rq : Req) (p : Plan) (r : Resp) : Out :=
 
 /-! ### caching.get, the request pipeline -/
 
+/-- the probe hook when it is configured with a priority in [lo, hi) -/
+def probeAt (t : Tools) (lo hi : Nat) : List Step :=
+  match t.probe with
+  | some (prio, act, once) => if lo ≤ prio ∧ prio < hi then [.probe act once] else []
+  | none => []
+
+/-- the before_finalize hooks of a request in priority order (expires 50, flatten 50, etags 75, gzip 80,
+    tee_output 100; the probe wherever its priority puts it) -/
 def hooksOf (t : Tools) (teeOn : Bool) : List Step :=
+  probeAt t 0 50 ++
   (if t.expires then [.expires] else []) ++ (if t.flatten then [.flatten] else []) ++
-  (if t.etags then [.etags] else []) ++ (if t.gzip then [.gzip] else []) ++
-  (if teeOn then [.tee] else [])
+  probeAt t 51 75 ++
+  (if t.etags then [.etags] else []) ++
+  probeAt t 76 80 ++
+  (if t.gzip then [.gzip] else []) ++
+  probeAt t 81 100 ++
+  (if teeOn then [.tee] else []) ++
+  probeAt t 101 1000
 
 /-- a fresh Response (+ `response.stream` from config) -/
 def freshResp (t : Tools) : Resp := { stream := t.stream }
